@@ -27,10 +27,11 @@ class Ob:
     detail: str = ""
     where: str = ""    # file:line for the human reader (not part of the key)
     trivial: bool = False
+    key_construct: str = ""   # optional stable replacement of `construct` in the key (free of local-variable names)
 
     @property
     def key(self) -> str:
-        return "%s|%s|%s" % (self.rule, self.fn, self.construct)
+        return "%s|%s|%s" % (self.rule, self.fn, self.key_construct or self.construct)
 
 
 class Context:
@@ -58,7 +59,7 @@ class Context:
         return self._memo[key]
 
     # -- recording
-    def ob(self, rule: str, fn, construct, ok, detail: str = "", node=None, trivial: bool = False, ok_detail: str = "") -> Ob:
+    def ob(self, rule: str, fn, construct, ok, detail: str = "", node=None, trivial: bool = False, ok_detail: str = "", key: str = "") -> Ob:
         """ok: True holds / False violated / None undecided.  `detail` explains a violation / undecided verdict and is
         dropped when the obligation holds (use ok_detail to say why it holds)."""
         if ok is True:
@@ -72,7 +73,7 @@ class Context:
             where = self.p.where(n, fn if isinstance(fn, FuncInfo) else None)
         elif isinstance(fn, FuncInfo):
             where = self.p.where(fn.node, fn)
-        o = Ob(rule, fq, cons, verdict, detail, where, trivial)
+        o = Ob(rule, fq, cons, verdict, detail, where, trivial, key)
         self.obs.append(o)
         return o
 
